@@ -350,6 +350,61 @@ class LocatedError(Contract):
                 ('wf', z3.Not(VL.is_nil(V.items(ex)))), ('elements_are_errors', AllCarried(V.items(ex)))]
 
 
+
+def _cv(st, e):
+    """the callable found at e.coerce_value: an instance attribute (a functools.partial bound by an inner located_error) shadows the method"""
+    inst_ = fld(st, 'coerce_value', e)
+    return inst_
+
+
+def bound_kw(st, e, name):
+    """the keyword an inner located_error already bound on e.coerce_value (Missing: none)"""
+    inst_ = _cv(st, e)
+    return z3.If(inst_ == V.Missing, V.Missing, lookup(V.fbound(inst_), S(name)))
+
+
+class LocatedErrorBinding(Contract):
+    """located_error on ONE (non-multiple) library error -- the body every carried exception goes through: the path and locations of the INNERMOST
+    failing field stick (6.4.4: the error's path is the path of the field that failed): an error that carries its own path / locations, or on
+    which an inner call already bound them, is never re-bound by an enclosing field; otherwise this field's path / node locations are bound"""
+    key = 'tartiflette/utils/errors.py::located_error'
+    property_ids = ('C02',)
+    params = ['original_error', 'nodes', 'path']
+    modifies_fields = ('coerce_value',)
+    instance_overrides = ('coerce_value',)
+    no_merge = True       # every combination of (own / bound / absent) x (path, locations) x (shape of nodes) is its own small path
+
+    def args(self, en, names):
+        self.A = super().args(en, names)
+        return self.A
+
+    def pre(self, A, st):
+        n, e = A['nodes'], A['original_error']
+        cv = _cv(st, e)
+        return [('a_single_library_error', z3.And(exact(e, 'TartifletteError'), V.oref(e) >= 0)),
+                ('its_own_path_and_locations', z3.And(z3.Or(attr0(e, 'path') == V.None_, V.is_List(attr0(e, 'path'))), z3.Or(attr0(e, 'locations') == V.None_, V.is_List(attr0(e, 'locations'))))),
+                ('coerce_value_is_the_method_or_a_partial_of_it', z3.Or(cv == V.Missing, z3.And(V.is_Fun(cv), lookup(V.fbound(cv), S('__partial__')) != V.Missing))),
+                ('nodes', z3.Or(n == V.None_, node_list(n), ast_node(n))),
+                ('path', z3.Or(A['path'] == V.None_, V.is_List(A['path'])))]
+
+    def post(self, A, st0, out):
+        if out.kind == 'raise':
+            return never_raises(out)
+        e, n, p, st = A['original_error'], A['nodes'], A['path'], out.st
+        own_path, own_locs = py_truthy(attr0(e, 'path')), py_truthy(attr0(e, 'locations'))
+        p0, p1 = bound_kw(st0, e, 'path'), bound_kw(st, e, 'path')
+        l0, l1 = bound_kw(st0, e, 'locations'), bound_kw(st, e, 'locations')
+        has_nodes = z3.If(n == V.None_, False, z3.If(V.is_List(n), z3.Not(VL.is_nil(V.items(n))), True))
+        n_nodes = z3.If(V.is_List(n), length(V.items(n)), 1)
+        r = out.value
+        return [('the_same_error_is_carried', z3.And(exact(r, 'MultipleException'), fld(st, 'exceptions', r) == V.List(mklist(e)))),
+                ('innermost_path_sticks', z3.Implies(z3.Or(own_path, p0 != V.Missing), p1 == p0)),
+                ('path_bound_when_absent', z3.Implies(z3.And(z3.Not(own_path), p0 == V.Missing), p1 == z3.If(py_truthy(p), p, V.Missing))),
+                ('innermost_locations_stick', z3.Implies(z3.Or(own_locs, l0 != V.Missing), l1 == l0)),
+                ('locations_bound_when_absent', z3.Implies(z3.And(z3.Not(own_locs), l0 == V.Missing),
+                                                           z3.If(has_nodes, z3.And(V.is_List(l1), length(V.items(l1)) == n_nodes), l1 == V.Missing)))]
+
+
 class AddError(Contract):
     key = 'tartiflette/execution/context.py::ExecutionContext.add_error'
     property_ids = ('C02',)
@@ -642,6 +697,6 @@ class GetOutputCoercer(Contract):
         return [('is_closure', V.is_Fun(out.value)), ('denotes_type', denote(out.value) == SO.OBehT(A['graphql_type'], self.cc()))]
 
 
-CONTRACTS = COMMON_CONTRACTS + [GetOutputCoercer(), ListOut(O + 'list_coercer.py::list_coercer_sequentially', False), ListOut(O + 'list_coercer.py::list_coercer_concurrently', True), IsCoercible(), MultipleExceptionBool(), MultipleExceptionAdd(), ExtractExceptions(), LocatedError(), AddError(),
+CONTRACTS = COMMON_CONTRACTS + [GetOutputCoercer(), ListOut(O + 'list_coercer.py::list_coercer_sequentially', False), ListOut(O + 'list_coercer.py::list_coercer_concurrently', True), IsCoercible(), MultipleExceptionBool(), MultipleExceptionAdd(), ExtractExceptions(), LocatedError(), LocatedErrorBinding(), AddError(),
                                 HandleFieldError(), CompleteValueCatchingError(), NonNullOut(), NullWrapperOut(), ScalarOut(), DirectivesOut()]
 LEMMAS = [Lemma('pointwise:' + imp.name, *imp.pointwise()) for imp in ListImplication.registry]
